@@ -54,9 +54,24 @@ impl Duration for std::time::Duration {
 
     #[inline(always)]
     fn div_duration_f64(self, rhs: Self) -> f64 {
-        // the inherent method (stable since Rust 1.80) divides the exact
-        // nanosecond counts; dividing two rounded second counts can land just
-        // below a quotient that is exactly representable (15ns / 20ns < 0.75)
-        self.div_duration_f64(rhs)
+        // divide the exact nanosecond counts, as the inherent method (stable
+        // since Rust 1.80) does: dividing two rounded second counts can land
+        // just below a quotient that is exactly representable (15ns / 20ns <
+        // 0.75). Above 2^53 ns (104 days) the conversion to f64 rounds as
+        // well: there the dividend is rounded up and the divisor down, so that
+        // the quotient never comes out below the true ratio and a share at or
+        // above a limit is never taken for one below it.
+        let to_f64 = |nanos: u128, up: bool| -> f64 {
+            let f = nanos as f64;
+            let back = f as u128;
+            if up && back < nanos {
+                f64::from_bits(f.to_bits() + 1)
+            } else if !up && back > nanos {
+                f64::from_bits(f.to_bits() - 1)
+            } else {
+                f
+            }
+        };
+        to_f64(self.as_nanos(), true) / to_f64(rhs.as_nanos(), false)
     }
 }
